@@ -309,6 +309,75 @@ use ChildState::*;
     } else if libc::WIFEXITED(status) {
         ExitStatus::Exited(libc::WEXITSTATUS(status) as u32)
     } else {"""),
+ ("prealloc-capacity-reordered", "src/posix.rs",
+  """            max_exe_len += 1 + split_path(search_path).map(OsStr::len).max().unwrap_or(0);""",
+  """            let longest = split_path(search_path).map(OsStr::len).max().unwrap_or(0);
+            max_exe_len += longest + 1;"""),
+ ("prepare_pipe-if-else-assign", "src/popen.rs",
+  """            let (parent_end, child_end) = if parent_writes {
+                (write, read)
+            } else {
+                (read, write)
+            };""",
+  """            let parent_end;
+            let child_end;
+            if parent_writes {
+                parent_end = write;
+                child_end = read;
+            } else {
+                parent_end = read;
+                child_end = write;
+            }"""),
+ ("exec-stdin-arms-reordered", "src/builder.rs",
+  """                (&Redirection::None, InputRedirection::AsRedirection(new)) => {
+                    self.config.stdin = new
+                }
+                (&Redirection::Pipe, InputRedirection::AsRedirection(Redirection::Pipe)) => (),
+                (&Redirection::None, InputRedirection::FeedData(data)) => {
+                    self.config.stdin = Redirection::Pipe;
+                    self.stdin_data = Some(data);
+                }""",
+  """                (&Redirection::None, InputRedirection::FeedData(data)) => {
+                    self.stdin_data = Some(data);
+                    self.config.stdin = Redirection::Pipe;
+                }
+                (&Redirection::Pipe, InputRedirection::AsRedirection(Redirection::Pipe)) => (),
+                (&Redirection::None, InputRedirection::AsRedirection(new)) => {
+                    self.config.stdin = new
+                }"""),
+ ("wait_timeout-saturating-remaining", "src/popen.rs",
+  """                let remaining = deadline.duration_since(now);""",
+  """                let remaining = deadline.saturating_duration_since(now);"""),
+ ("communicator-deadline-match", "src/communicate.rs",
+  """        let deadline = self.time_limit.map(|timeout| Instant::now() + timeout);
+        match self.inner.read(deadline, self.size_limit) {""",
+  """        let deadline = match self.time_limit {
+            Some(timeout) => Some(Instant::now() + timeout),
+            None => None,
+        };
+        match self.inner.read(deadline, self.size_limit) {"""),
+ ("maybe_poll-saturating-timeout", "src/communicate.rs",
+  """        let timeout = deadline.map(|deadline| {
+            let now = Instant::now();
+            if now >= deadline {
+                Duration::from_secs(0)
+            } else {
+                deadline - now
+            }
+        });""",
+  """        let timeout = deadline.map(|deadline| deadline.saturating_duration_since(Instant::now()));"""),
+ ("popen-drop-matches", "src/popen.rs",
+  """        if let (false, &Running { .. }) = (self.detached, &self.child_state) {""",
+  """        if !self.detached && matches!(self.child_state, Running { .. }) {"""),
+ ("append_quoted-repeat-take", "src/popen.rs",
+  """            if i == arg.len() {
+                for _ in 0..num_backslashes * 2 {
+                    cmdline.push('\\\\' as u16);
+                }
+                break;""",
+  """            if i == arg.len() {
+                cmdline.extend(std::iter::repeat('\\\\' as u16).take(num_backslashes * 2));
+                break;"""),
 ]
 
 # additional edits (same file) belonging to a refactor: (old, new) pairs
